@@ -102,7 +102,8 @@ func main() {
 	keyKinds := []string{"p256", "p256", "p384", "rsa2048", "ed25519"}
 
 	for i := 0; i < n; i++ {
-		caWithSKI := r.Intn(4) != 0
+		bare := r.Intn(3) == 0 // certificates whose only extensions are the extra ones
+		caWithSKI := r.Intn(4) != 0 && !bare
 		var caSKI []byte
 		if caWithSKI {
 			caSKI = make([]byte, 20)
@@ -119,7 +120,7 @@ func main() {
 		var preIss *pki.Entity
 		if usePre {
 			var piSKI []byte
-			if r.Intn(3) != 0 {
+			if r.Intn(3) != 0 && !bare {
 				piSKI = make([]byte, 20)
 				r.Read(piSKI)
 			}
@@ -127,7 +128,13 @@ func main() {
 			if r.Intn(12) == 0 {
 				ekus = []x509.ExtKeyUsage{x509.ExtKeyUsageServerAuth} // not a real pre-issuer
 			}
-			preIss = pki.Issue(pki.Opts{CN: fmt.Sprintf("Pre-issuer %d", i), IsCA: true, KeyKind: "p256", KeyIdx: 3 + r.Intn(3), SKI: piSKI, EKUs: ekus}, ca)
+			// the pre-issuer's own authority key id, in the three forms RFC 5280 allows; custom forms are
+			// only possible when the CA has no subject key id (CreateCertificate would add its own)
+			var piExtra []pkix.Extension
+			if caSKI == nil && piSKI == nil && r.Intn(2) == 0 {
+				piExtra = []pkix.Extension{{Id: x509.OIDExtensionAuthorityKeyId, Value: akiValue(r, ca.Cert)}}
+			}
+			preIss = pki.Issue(pki.Opts{CN: fmt.Sprintf("Pre-issuer %d", i), IsCA: true, KeyKind: "p256", KeyIdx: 3 + r.Intn(3), SKI: piSKI, EKUs: ekus, ExtraExt: piExtra}, ca)
 		}
 		// the certificate content
 		nExtra := r.Intn(4)
@@ -143,14 +150,19 @@ func main() {
 		}
 		leafKind := keyKinds[r.Intn(len(keyKinds))]
 		var leafSKI []byte
-		if r.Intn(2) == 0 {
+		if r.Intn(2) == 0 && !bare {
 			leafSKI = make([]byte, 20)
 			r.Read(leafSKI)
 		}
 		mk := func(extra []pkix.Extension, parent *pki.Entity) *pki.Entity {
-			return pki.Issue(pki.Opts{CN: fmt.Sprintf("leaf-%d.example", i), KeyKind: leafKind, KeyIdx: 6, Serial: serial,
+			o := pki.Opts{CN: fmt.Sprintf("leaf-%d.example", i), KeyKind: leafKind, KeyIdx: 6, Serial: serial,
 				NotBefore: notBefore, NotAfter: notAfter, ExtraExt: extra, SKI: leafSKI, DNSNames: []string{fmt.Sprintf("leaf-%d.example", i)},
-				EKUs: []x509.ExtKeyUsage{x509.ExtKeyUsageServerAuth}}, parent)
+				EKUs: []x509.ExtKeyUsage{x509.ExtKeyUsageServerAuth}}
+			if bare {
+				o.DNSNames, o.EKUs, o.NoBC = nil, nil, true
+				o.Mutate = func(t *x509.Certificate) { t.KeyUsage = 0 }
+			}
+			return pki.Issue(o, parent)
 		}
 		pi := r.Intn(len(others) + 1)
 		precertParent := ca
@@ -164,7 +176,11 @@ func main() {
 			precertExts = others
 			mut = "no-poison"
 		case 1:
-			precertExts = insertAt(precertExts, r.Intn(len(precertExts)+1), pki.PoisonExt())
+			at := r.Intn(len(precertExts) + 1)
+			if r.Intn(2) == 0 {
+				at = 0
+			}
+			precertExts = insertAt(precertExts, at, pki.PoisonExt())
 			mut = "poison-twice"
 		}
 		precert := mk(precertExts, precertParent)
@@ -192,7 +208,7 @@ func main() {
 		}
 		w.Add(lib.Case{
 			Coq:    fmt.Sprintf("CBuild %s %s (%s)", lib.Bytes(tbs), preCoq, obsBytes(built, berr, pan)),
-			Input:  map[string]interface{}{"op": "build-precert-tbs", "preissuer": usePre, "mutation": mut, "others": nExtra, "poison_at": pi, "leaf_key": leafKind},
+			Input:  map[string]interface{}{"op": "build-precert-tbs", "bare": bare, "preissuer": usePre, "mutation": mut, "others": nExtra, "poison_at": pi, "leaf_key": leafKind},
 			Impl:   map[string]interface{}{"ok": berr == nil && !pan, "len": len(built)},
 			PropOK: propOK, Note: note, Tags: []string{"build:" + mut, fmt.Sprintf("preissuer=%v", usePre)},
 		})
@@ -266,7 +282,11 @@ func main() {
 		fmut := "none"
 		switch r.Intn(10) {
 		case 0:
-			finalExts = insertAt(finalExts, r.Intn(len(finalExts)+1), pkix.Extension{Id: x509.OIDExtensionCTSCT, Value: extVal})
+			at := r.Intn(len(finalExts) + 1)
+			if r.Intn(2) == 0 {
+				at = 0
+			}
+			finalExts = insertAt(finalExts, at, pkix.Extension{Id: x509.OIDExtensionCTSCT, Value: extVal})
 			fmut = "sct-twice"
 		case 1:
 			if len(others) > 0 { // a different "other" extension: not the certificate the log signed
@@ -347,12 +367,12 @@ func main() {
 			e2eOK = false
 		}
 		w.Add(lib.Case{
-			Coq:     fmt.Sprintf("CRemoveSct %s (%s)", lib.Bytes(final.Cert.RawTBSCertificate), obsBytes(rem, rerr, rpan)),
-			Key:     fmt.Sprintf("e2e-%d", i),
-			Input:   map[string]interface{}{"op": "verify-embedded-sct", "mutation": fmut, "preissuer": usePre},
-			Impl:    map[string]interface{}{"embedded_verifies": verr == nil, "precert_sct_verifies": perr2 == nil, "leaves_equal": bytes.Equal(lb1, lb2)},
-			PropOK:  e2eOK, Note: fmt.Sprintf("embedded SCT verification (%v) inconsistent with the log's signature for mutation %s", verr == nil, fmut),
-			Tags:    []string{"e2e:" + fmut + fmt.Sprintf(":verifies=%v", verr == nil)},
+			Coq:    fmt.Sprintf("CRemoveSct %s (%s)", lib.Bytes(final.Cert.RawTBSCertificate), obsBytes(rem, rerr, rpan)),
+			Key:    fmt.Sprintf("e2e-%d", i),
+			Input:  map[string]interface{}{"op": "verify-embedded-sct", "mutation": fmut, "preissuer": usePre},
+			Impl:   map[string]interface{}{"embedded_verifies": verr == nil, "precert_sct_verifies": perr2 == nil, "leaves_equal": bytes.Equal(lb1, lb2)},
+			PropOK: e2eOK, Note: fmt.Sprintf("embedded SCT verification (%v) inconsistent with the log's signature for mutation %s", verr == nil, fmut),
+			Tags: []string{"e2e:" + fmut + fmt.Sprintf(":verifies=%v", verr == nil)},
 		})
 	}
 	w.Close()
@@ -384,4 +404,36 @@ func normSCT(s ct.SignedCertificateTimestamp) ct.SignedCertificateTimestamp {
 		s.Signature.Signature = nil
 	}
 	return s
+}
+
+// akiValue builds an AuthorityKeyIdentifier extension value in one of the forms RFC 5280 allows:
+// keyIdentifier only, authorityCertIssuer + serial only, or all three.
+func akiValue(r *mrand.Rand, issuer *x509.Certificate) []byte {
+	type aki struct {
+		ID     []byte        `asn1:"optional,tag:0"`
+		Issuer asn1.RawValue `asn1:"optional,tag:1"`
+		Serial *big.Int      `asn1:"optional,tag:2"`
+	}
+	kid := make([]byte, 20)
+	r.Read(kid)
+	gn := asn1.RawValue{Class: asn1.ClassContextSpecific, Tag: 4, IsCompound: true, Bytes: issuer.RawSubject}
+	gnBytes, err := asn1.Marshal(gn)
+	if err != nil {
+		panic(err)
+	}
+	names := asn1.RawValue{Class: asn1.ClassContextSpecific, Tag: 1, IsCompound: true, Bytes: gnBytes}
+	var v aki
+	switch r.Intn(3) {
+	case 0:
+		v.ID = kid
+	case 1:
+		v.Issuer, v.Serial = names, big.NewInt(int64(1+r.Intn(1000)))
+	default:
+		v.ID, v.Issuer, v.Serial = kid, names, big.NewInt(int64(1+r.Intn(1000)))
+	}
+	b, err := asn1.Marshal(v)
+	if err != nil {
+		panic(err)
+	}
+	return b
 }
